@@ -11,11 +11,12 @@ CORR = {"C01": "word-ops; multi-process renderings", "C02": "interp-ops", "C03":
         "C13": "tables names", "C14": "interp-ops", "C15": "alias-ops", "C16": "runner glue-trace", "C17": "formatter ops", "C18": "c18-enum (65 537 places), c18-laws", "C19": "cli-files (real binary)", "C20": "seq-plan; real binary"}
 
 def theorem_table():
-    out = ["### 9.1b Theorems per property (generated from `lean/AscaVerif/Props`)", "", "| property | theorems in `Props/Cxx.lean` | correspondence suites |", "|---|---|---|"]
+    out = ["### 9.1b Theorems per property (generated from `lean/AscaVerif/Props`)", "", "| property | theorems in `Props/Cxx*.lean` | correspondence suites |", "|---|---|---|"]
     for i in range(1, 21):
         pid = f"C{i:02d}"
-        f = os.path.join(V, "lean", "AscaVerif", "Props", pid + ".lean")
-        names = re.findall(r"^theorem\s+([A-Za-z0-9_]+)", open(f, encoding="utf-8").read(), re.M) if os.path.exists(f) else []
+        names = []
+        for f in sorted(glob.glob(os.path.join(V, "lean", "AscaVerif", "Props", pid + "*.lean"))):
+            names += re.findall(r"^theorem\s+([A-Za-z0-9_]+)", open(f, encoding="utf-8").read(), re.M)
         out.append(f"| {pid} | {len(names)}: " + ", ".join(f"`{n}`" for n in names) + f" | {CORR.get(pid, '')} |")
     return "\n".join(out)
 
